@@ -362,8 +362,7 @@ def ir_words(t):
     if isinstance(t, bool):
         raise Unmodelled("bool")
     if isinstance(t, (int, float)):
-        s = repr(float(t))
-        return ["g", "n", s[1:]] if s.startswith("-") else ["n", s]
+        return ["n", repr(float(t))]           # a signed literal stays ONE IR node: the model's `nnum` (level of unary minus)
     if isinstance(t, str):
         if t.strip() == "":
             return ["e"]
@@ -425,7 +424,15 @@ def gen_arith(rng, depth, nvars, st):
         if r < 7 and nvars > 0:
             return ("var", rng.below(nvars))
         if r < 10 or nvars == 0:
-            return ("num", rng.choice(["2", "3", "0.5", "4", "1.5", "10", ".25", "7", "1"]))
+            lit = rng.choice(["2", "3", "0.5", "4", "1.5", "10", ".25", "7", "1"])
+            q = rng.below(10)
+            if q == 0:                       # signed literal, bare: an operand of the level of unary minus
+                st["ops"]["nlit"] = st["ops"].get("nlit", 0) + 1
+                return ("nlit", lit)
+            if q == 1:                       # parenthesised signed literal: a primary
+                st["ops"]["(nlit)"] = st["ops"].get("(nlit)", 0) + 1
+                return ("paren", ("nlit", lit))
+            return ("num", lit)
         return ("special", rng.choice(["TIME", "DT", "STARTTIME", "STOPTIME", "PI"]))
     r = rng.below(40)
     if r < 17:
@@ -524,7 +531,7 @@ def gen_sent(rng, depth, nvars, st):
 def glevel(g):
     k = g[0]
     if k == "bin": return LVL[g[1]]
-    if k == "neg": return 7
+    if k in ("neg", "nlit"): return 7
     if k in ("if", "ifs"): return 0
     return 100
 
@@ -556,6 +563,7 @@ class Speller:
     def show(self, g):
         k = g[0]
         if k == "num": return g[1]
+        if k == "nlit": return "-" + (" " if self.rng.chance(1, 4) and g[1][0] != "." else "") + g[1]   # the PEG's signed NumericLiteral
         if k == "var": return self.ref(g[1])
         if k == "special": return self.case(g[1])
         if k == "paren": return "(" + self.sp() + self.show(g[1]) + self.sp() + ")"
@@ -620,6 +628,61 @@ def make_doc(rng, st):
         eqs.append((names[i], text))
     spec = rng.choice([(0.0, 4.0, 1.0, "1"), (0.0, 4.0, 0.5, "0.5"), (1.0, 5.0, 1.0, "1"), (0.0, 3.0, 0.25, "0.25")])
     return doc_xml(eqs, spec), eqs, spec
+
+
+SIGNED = ["(-2)", "-2", "(-2)^2", "a*(-2)", "( - 3 )"]
+
+
+def signed_literal_equations():
+    """a signed numeric literal — parenthesised and bare — at every operand position of every operator and every builtin of
+    the vocabulary (variables a, b are declared by the document)"""
+    eqs = []
+    for op in ["+", "-", "*", "/", "^", "mod"]:
+        o = f" {op} "
+        eqs += [f"(-2){o}a", f"a{o}(-2)", f"-2{o}a", f"a{o}-2", f"(-2){o}(-3)", f"( - 2 ){o}b", f"(-2){o}2", f"-2{o}2", f"b{o}(-2){o}a",
+                f"(-2){o}(-3){o}(-2)", f"a{o}( -.5 )", f"(-2.5){o}a"]
+    for op in ["=", "<>", "<", "<=", ">", ">="]:
+        o = f" {op} "
+        eqs += [f"IF (-2){o}a THEN 1 ELSE 2", f"IF a{o}(-2) THEN 1 ELSE 2", f"IF -2{o}a THEN 1 ELSE 2", f"IF a{o}-2 THEN 1 ELSE 2",
+                f"((-2){o}a) * 2", f"(a{o}(-2)) * 2", f"IF NOT((-2){o}a) THEN (-2) ELSE -3", f"IF NOT(a{o}-2) THEN -2 ELSE (-3)"]
+    for op in ["and", "or"]:
+        eqs += [f"IF (-2) < a {op} b > (-3) THEN 1 ELSE 2", f"IF -2 < a {op} b > -3 THEN (-1) ELSE (-2)",
+                f"IF (-2) > a {op} NOT((-3) > b) THEN 1 ELSE 2"]
+    eqs += ["(-2)", "((-2))", "-(-2)", "-(-2)^2", "- (-2) * a", "-2", "-2^2", "(-2)^2", "(-2)^(-2)", "2^(-2)", "2^-2", "(-2)^2^2", "(-2)^-2^2",
+            "a^(-2)^2", "IF a > 1 THEN (-2) ELSE -3", "IF a > 1 THEN -2 ELSE (-3)", "IF a < 1 THEN (-2)^2 ELSE (-3)^2", "(IF a > 1 THEN (-2) ELSE (-3)) ^ 2"]
+    pos = ["a", "b", "2"]
+    for f, n in VOCAB:
+        if n == 0 or f in ("()", "if"):
+            continue
+        for i in range(n):
+            for lit in SIGNED:
+                args = [lit if j == i else pos[j] for j in range(n)]
+                eqs.append(f"{f.upper()}({', '.join(args)})")
+                eqs.append(f"{f.upper()}({', '.join(args)}) ^ 2")
+        eqs.append(f"{f.upper()}({', '.join(['(-2)'] * n)})")
+        eqs.append(f"(-2) * {f.upper()}({', '.join(['(-3)'] * n)}) - (-2)")
+    return eqs
+
+
+def signed_literal_docs(st, rng, limit=None):
+    """the equations above as documents of 8; forms the PEG refuses (loud, allowed) are counted, not used"""
+    eqs = signed_literal_equations()
+    if limit is not None and limit < len(eqs):
+        eqs = rng.shuffle(eqs)[:limit]
+    ok = []
+    for e in eqs:
+        rej = peg_rejects(e)
+        if rej is None:
+            ok.append(e)
+        else:
+            st.setdefault("signed_literal_peg_rejected", []).append(e)
+    st["signed_literal_equations"] = len(ok)
+    docs = []
+    for i in range(0, len(ok), 8):
+        spec = [(0.0, 4.0, 1.0, "1"), (1.0, 5.0, 1.0, "1"), (0.0, 3.0, 0.25, "0.25")][(i // 8) % 3]
+        named = [("a", "7"), ("b", "3")] + [(f"sl {i + j}", e) for j, e in enumerate(ok[i:i + 8])]
+        docs.append((doc_xml(named, spec), named, spec))
+    return docs
 
 
 def xml_escape(s):
@@ -722,7 +785,7 @@ def run(chk):
         ob = ("theorem cfg_good : good cfg xmilePrec = true := by decide +kernel\n"
               "theorem shapes_ok : shapesOK cfg = true := by decide +kernel\n"
               "theorem extended_ok : (tableOK 1 extended && extended.all primOK) = true := by decide +kernel\n"
-              "theorem holds : C03_full cfg xmilePrec := C03_full_of_good cfg xmilePrec xmile_prec_agrees cfg_good shapes_ok\n"
+              "theorem holds : C03_full cfg xmilePrec := C03_full_of_good cfg xmilePrec xmile_prec_agrees xmile_unamb cfg_good shapes_ok\n"
               "#print axioms holds\n")
     else:
         ob = "theorem cfg_not_good : good cfg xmilePrec = false := by decide +kernel\n#print axioms cfg_not_good\n"
@@ -772,7 +835,7 @@ def run(chk):
                 corr = ("sanitize", s, f"model {model!r}", f"impl {real!r}")
         chk.cov["names_compared"] = len(name_cases)
         # name resolution table needs the model's sanitize of every declared name: one driver call per batch
-        docs = [make_doc(rng, stats) for _ in range(ndocs)]
+        docs = signed_literal_docs(stats, rng) + [make_doc(rng, stats) for _ in range(ndocs)]
         decl = sorted({n for _, eqs, _ in docs for n, _ in eqs})
         sres = drive("C03", ["san " + ",".join(str(ord(ch)) for ch in ("." + n.lower()))for n in decl])
         pyname = {n: "".join(chr(int(x)) for x in r[4:].split(",") if x) for n, r in zip(decl, sres)}
@@ -835,7 +898,7 @@ def run(chk):
             flags = dict(x.split("=") for x in parts[0].split(" ")[1:])
             if parts[3] != " ".join(pyw):
                 corr = ("model-text-vs-real-text", eq, parts[3], " ".join(pyw))
-            elif any(flags.get(k) != "1" for k in ("flatx", "wl", "flatir", "same", "known", "valid", "knownir")) or flags.get("compile") != "text":
+            elif any(flags.get(k) != "1" for k in ("flatx", "wl", "flatir", "same", "known", "valid", "knownir", "irok", "vflat")) or flags.get("compile") != "text":
                 corr = ("translation-validation", eq, parts[0], text)
             elif parts[1] != rsx:
                 corr = ("reference-parsers-differ", eq, parts[1], rsx)
